@@ -36,7 +36,8 @@ def strategy(tier):
 def state_dependent_pars(spec):
     """names of parameters whose value depends (transitively) on compartments/characteristics"""
     fn = {p["name"]: p.get("fn") for p in spec["pars"]}
-    dep = set()
+    # a parameter overwritten by programs depends on the state through the coverage (number eligible)
+    dep = {c["par"] for c in ((spec.get("progs") or {}).get("covouts") or [])}
     changed = True
     while changed:
         changed = False
